@@ -38,7 +38,7 @@ typedef struct snapshot {
 /* ---- a user-defined pool: associating a work unit with it makes the library allocate an
  * entry of its unit -> work-unit map, and calls back create_unit, which may fail too ---- */
 #define UPSLOTS 32
-static struct {
+typedef struct upstate {
     int inited;
     ABT_pool pool;
     ABT_xstream xs;
@@ -46,11 +46,34 @@ static struct {
     int q[UPSLOTS], nq;
     long creates, frees;
     int fail_next_create, fail_fired;
-} UP;
+} upstate;
+/* UPS[0]: served by a stream of its own; UPS[1]: a second user-defined pool nobody serves (units
+ * are only associated with it).  Each has its own units: a callback of one pool that receives a
+ * unit of the other is an error of the library. */
+static upstate UPS[2];
+#define UP UPS[0]
+#define UPB UPS[1]
+static upstate *up_cur; /* the pool whose callback is running */
 static ABT_thread revive_t;
+static upstate *up_of(ABT_pool pool)
+{
+    return (UPB.inited && pool == UPB.pool) ? &UPB : &UP;
+}
+#define UP_ENTER(pool_) upstate *upsave_ = up_cur; up_cur = up_of(pool_)
+#define UP_LEAVE() up_cur = upsave_
 
+static ABT_unit up18_create_unit_(ABT_pool pool, ABT_thread thread);
 static ABT_unit up18_create_unit(ABT_pool pool, ABT_thread thread)
 {
+    UP_ENTER(pool);
+    ABT_unit u = up18_create_unit_(pool, thread);
+    UP_LEAVE();
+    return u;
+}
+static ABT_unit up18_create_unit_(ABT_pool pool, ABT_thread thread)
+{
+#undef UP
+#define UP (*up_cur)
     (void)pool;
     if (UP.fail_next_create) {
         UP.fail_next_create = 0;
@@ -71,49 +94,56 @@ static ABT_unit up18_create_unit(ABT_pool pool, ABT_thread thread)
 static int up18_slot(ABT_unit unit)
 {
     long i = (long)(((char *)unit - (char *)&UP.slot[0]) / (long)sizeof UP.slot[0]);
-    SIM_CHECK(i >= 0 && i < UPSLOTS && (void *)&UP.slot[i] == (void *)unit && UP.slot[i].used, "upool:unknown-unit", "a user-pool callback received a handle that is not a live unit");
+    SIM_CHECK(i >= 0 && i < UPSLOTS && (void *)&UP.slot[i] == (void *)unit && UP.slot[i].used, "upool:unknown-unit",
+              "a callback of user-defined pool #%d received handle %p, which is not a live unit of that pool%s", (int)(up_cur - UPS), (void *)unit,
+              ((char *)unit >= (char *)UPS && (char *)unit < (char *)(UPS + 2)) ? " (it is a unit of the other user-defined pool)" : "");
     return (int)i;
 }
 static void up18_free_unit(ABT_pool pool, ABT_unit unit)
 {
-    (void)pool;
+    UP_ENTER(pool);
     int i = up18_slot(unit);
     SIM_CHECK(!UP.slot[i].queued, "upool:free-queued-unit", "free_unit called for a unit that is still queued");
     UP.slot[i].used = 0;
     UP.frees++;
+    UP_LEAVE();
 }
 static ABT_bool up18_is_empty(ABT_pool pool)
 {
-    (void)pool;
-    return UP.nq == 0 ? ABT_TRUE : ABT_FALSE;
+    return up_of(pool)->nq == 0 ? ABT_TRUE : ABT_FALSE;
 }
 static size_t up18_get_size(ABT_pool pool)
 {
-    (void)pool;
-    return (size_t)UP.nq;
+    return (size_t)up_of(pool)->nq;
 }
 static ABT_thread up18_pop(ABT_pool pool, ABT_pool_context ctx)
 {
-    (void)pool;
     (void)ctx;
-    if (UP.nq == 0)
-        return ABT_THREAD_NULL;
-    int i = UP.q[0];
-    for (int k = 1; k < UP.nq; k++)
-        UP.q[k - 1] = UP.q[k];
-    UP.nq--;
-    UP.slot[i].queued = 0;
-    return UP.slot[i].th;
+    UP_ENTER(pool);
+    ABT_thread r = ABT_THREAD_NULL;
+    if (UP.nq > 0) {
+        int i = UP.q[0];
+        for (int k = 1; k < UP.nq; k++)
+            UP.q[k - 1] = UP.q[k];
+        UP.nq--;
+        UP.slot[i].queued = 0;
+        r = UP.slot[i].th;
+    }
+    UP_LEAVE();
+    return r;
 }
 static void up18_push(ABT_pool pool, ABT_unit unit, ABT_pool_context ctx)
 {
-    (void)pool;
     (void)ctx;
+    UP_ENTER(pool);
     int i = up18_slot(unit);
     SIM_CHECK(!UP.slot[i].queued, "upool:push-twice", "a unit was pushed while it is already queued");
     UP.slot[i].queued = 1;
     UP.q[UP.nq++] = i;
+    UP_LEAVE();
 }
+#undef UP
+#define UP UPS[0]
 static int up18_make_def(ABT_pool_user_def *def)
 {
     int rc = ABT_pool_user_def_create(up18_create_unit, up18_free_unit, up18_is_empty, up18_pop, up18_push, def);
@@ -133,8 +163,23 @@ static void up18_ensure(void)
     ABT_OK(ABT_xstream_create_basic(ABT_SCHED_BASIC, 1, &UP.pool, ABT_SCHED_CONFIG_NULL, &UP.xs));
     UP.inited = 1;
 }
+static void upb_ensure(void)
+{
+    if (UPB.inited)
+        return;
+    ABT_pool_user_def def;
+    ABT_OK(up18_make_def(&def));
+    ABT_OK(ABT_pool_create(def, ABT_POOL_CONFIG_NULL, &UPB.pool));
+    ABT_OK(ABT_pool_user_def_free(&def));
+    UPB.inited = 1;
+}
 static void up18_teardown(void)
 {
+    if (UPB.inited) {
+        ABT_OK(ABT_pool_free(&UPB.pool));
+        SIM_CHECK(UPB.creates == UPB.frees, "upool:unit-leaked", "second user pool: %ld units created, %ld freed", UPB.creates, UPB.frees);
+        UPB.inited = 0;
+    }
     if (!UP.inited)
         return;
     ABT_OK(ABT_xstream_join(UP.xs));
@@ -163,7 +208,7 @@ static void take(snapshot *s)
 {
     memset(s, 0, sizeof *s);
     ABT_OK(ABT_xstream_get_num(&s->num_xs));
-    s->up_live = UP.creates - UP.frees;
+    s->up_live = UP.creates - UP.frees + 1000 * (UPB.creates - UPB.frees);
     if (UP.inited) {
         /* everything the library is willing to print about the pool (its stream is idle now) */
         char *buf = NULL;
@@ -213,6 +258,7 @@ typedef struct op18 {
     int upool; /* 1: needs the user-defined pool; 2: and calls its create_unit (which may fail) */
     int on_ext; /* the whole enumeration runs on an external thread (its allocations never come
                  * from a stream-local memory pool: every block is a malloc) */
+    void (*prep)(void); /* fault-free preparation before every attempt */
 } op18;
 
 static void nop_fn(void *a)
@@ -570,6 +616,107 @@ static void u_none(void **h)
 {
     (void)h;
 }
+static int d_thread_migrate(void **h)
+{
+    /* the deprecated "migrate to any other stream": collects the streams in a temporary array */
+    int rc = ABT_thread_migrate(X.blocked);
+    *h = rc == ABT_SUCCESS ? (void *)X.blocked : POISON;
+    return rc;
+}
+static void u_thread_migrate(void **h)
+{
+    (void)h;
+    /* whatever stream was chosen, the request that counts when the ULT is resumed at the very
+     * end names a pool that still exists then */
+    ABT_OK(ABT_thread_migrate_to_pool(X.blocked, X.pool2));
+}
+/* user-defined pool -> another user-defined pool: the old unit must stay what it is until the
+ * new one is in place */
+static void p_assoc_up2up(void)
+{
+    upb_ensure();
+    ABT_OK(ABT_thread_set_associated_pool(X.blocked, UP.pool));
+}
+static int d_assoc_up2up(void **h)
+{
+    int rc = ABT_thread_set_associated_pool(X.blocked, UPB.pool);
+    *h = rc == ABT_SUCCESS ? (void *)X.blocked : POISON;
+    if (rc != ABT_SUCCESS) {
+        /* still a unit of the first pool, and the translation still works */
+        ABT_unit u = ABT_UNIT_NULL;
+        ABT_thread t = ABT_THREAD_NULL;
+        ABT_OK(ABT_thread_get_unit(X.blocked, &u));
+        SIM_CHECK((char *)u >= (char *)&UP.slot[0] && (char *)u < (char *)&UP.slot[UPSLOTS], "fault:state-changed", "after the failed move the ULT's unit %p is not a unit of the pool it is still associated with", (void *)u);
+        ABT_OK(ABT_unit_get_thread(u, &t));
+        SIM_CHECK(t == X.blocked, "fault:state-changed", "after the failed move the ULT's unit translates to %p", (void *)t);
+    }
+    return rc;
+}
+/* more than 64 handles in one call: the routine needs a temporary array */
+#define NPUSH 70
+static ABT_thread push_h[NPUSH];
+static ABT_pool push_pool = ABT_POOL_NULL;
+static int push_inited;
+static void p_push_many(void)
+{
+    if (push_inited)
+        return;
+    ABT_OK(ABT_pool_create_basic(ABT_POOL_FIFO, ABT_POOL_ACCESS_MPMC, ABT_FALSE, &push_pool));
+    for (int i = 0; i < NPUSH; i++)
+        ABT_OK(ABT_thread_create(push_pool, nop_fn, NULL, ABT_THREAD_ATTR_NULL, &push_h[i]));
+    ABT_thread out[NPUSH];
+    size_t got = 0;
+    ABT_OK(ABT_pool_pop_threads(push_pool, out, NPUSH, &got));
+    SIM_CHECK(got == NPUSH, "api-error", "ABT_pool_pop_threads returned %zu of %d", got, NPUSH);
+    push_inited = 1;
+}
+static int d_push_many(void **h)
+{
+    int rc = ABT_pool_push_threads(push_pool, push_h, NPUSH);
+    size_t sz = 0;
+    ABT_OK(ABT_pool_get_size(push_pool, &sz));
+    SIM_CHECK(sz == (rc == ABT_SUCCESS ? NPUSH : 0), "fault:state-changed", "ABT_pool_push_threads of %d units returned %d and left %zu units in the pool", NPUSH, rc, sz);
+    *h = rc == ABT_SUCCESS ? (void *)push_h : POISON;
+    return rc;
+}
+static void u_push_many(void **h)
+{
+    (void)h;
+    ABT_thread out[NPUSH];
+    size_t got = 0;
+    ABT_OK(ABT_pool_pop_threads(push_pool, out, NPUSH, &got));
+    SIM_CHECK(got == NPUSH, "fault:state-changed", "%zu of %d units came back from the pool", got, NPUSH);
+}
+static void push_teardown(void)
+{
+    if (!push_inited)
+        return;
+    ABT_pool p = target_pool();
+    for (int i = 0; i < NPUSH; i++) {
+        ABT_OK(ABT_thread_set_associated_pool(push_h[i], p));
+        ABT_OK(ABT_pool_push_thread(p, push_h[i]));
+    }
+    for (int i = 0; i < NPUSH; i++)
+        ABT_OK(ABT_thread_free(&push_h[i]));
+    ABT_OK(ABT_pool_free(&push_pool));
+    push_inited = 0;
+}
+/* printing routines that collect pools in a temporary set */
+static int d_info_print_all(void **h)
+{
+    char *buf = NULL;
+    size_t len = 0;
+    FILE *f = open_memstream(&buf, &len);
+    if (!f)
+        return ABT_SUCCESS;
+    int rc = ABT_info_print_all_xstreams(f);
+    if (rc == ABT_SUCCESS)
+        rc = ABT_info_print_thread_stacks_in_pool(f, target_pool());
+    fclose(f);
+    free(buf);
+    *h = rc == ABT_SUCCESS ? (void *)1 : POISON;
+    return rc;
+}
 #define SIMPLE(name, type, create_expr, free_fn)                               \
     static int d_##name(void **h)                                              \
     {                                                                          \
@@ -634,6 +781,10 @@ static const op18 OPS[] = {
     { "ABT_thread_set_specific(x24)", d_set_specific_many, u_set_specific_many, POISON, 2, 0, 0 },
     { "ABT_thread_set_specific(x24,ext)", d_set_specific_many, u_set_specific_many, POISON, 2, 0, 1 },
     { "ABT_thread_migrate_to_pool", d_migrate_request, u_none, POISON, 2 },
+    { "ABT_thread_migrate", d_thread_migrate, u_thread_migrate, POISON, 2 },
+    { "ABT_thread_set_associated_pool(user_pool->user_pool2)", d_assoc_up2up, u_set_assoc_upool, POISON, 2, 2, 0, p_assoc_up2up },
+    { "ABT_pool_push_threads(x70)", d_push_many, u_push_many, POISON, 0, 0, 0, p_push_many },
+    { "ABT_info_print_all_xstreams+thread_stacks_in_pool", d_info_print_all, u_none, POISON, 0 },
     { "ABT_mutex_create", d_mutex, u_mutex, ABT_MUTEX_NULL, 0 },
     { "ABT_mutex_attr_create", d_mutex_attr, u_mutex_attr, ABT_MUTEX_ATTR_NULL, 0 },
     { "ABT_cond_create", d_cond, u_cond, ABT_COND_NULL, 0 },
@@ -660,6 +811,12 @@ static void follow_up(const char *op)
         ABT_OK(ABT_mutex_lock(X.mtx));
         ABT_OK(ABT_mutex_unlock(X.mtx));
     }
+    if (plan_n(4) == 0) {
+        /* the list of execution streams (and its lock) is still usable */
+        ABT_xstream xs;
+        ABT_OK(ABT_xstream_create(ABT_SCHED_NULL, &xs));
+        ABT_OK(ABT_xstream_free(&xs));
+    }
     (void)op;
     sim_progress();
 }
@@ -669,6 +826,8 @@ static void follow_up(const char *op)
 static int attempt(const op18 *o, int k)
 {
     snapshot before, after;
+    if (o->prep)
+        o->prep();
     take(&before);
     void *h = POISON;
     if (k > 0)
@@ -737,10 +896,13 @@ static void ext_enumerate(void *arg)
     sim_progress();
 }
 
+static int only_upool; /* C14: only the entries that associate units with user-defined pools */
 static void run_c18(void)
 {
     memset(&X, 0, sizeof X);
-    memset(&UP, 0, sizeof UP);
+    memset(UPS, 0, sizeof UPS);
+    up_cur = &UPS[0];
+    push_inited = 0;
     revive_t = ABT_THREAD_NULL;
     n_failures = n_success_despite_fault = n_ops_enumerated = n_faults_total = 0;
     sim_allow_faults((1u << SIM_F_STALL) | (1u << SIM_F_SLOW_NODE));
@@ -786,7 +948,7 @@ static void run_c18(void)
     }
     /* ---- every other routine, in a fresh / populated / busy runtime ---- */
     ABT_OK(ABT_init(0, NULL));
-    X.populated = plan_n(3) != 0;
+    X.populated = plan_n(3) != 0 || only_upool;
     X.concurrent = X.populated && plan_bool();
     sim_note("C18 kinds=%#x populated=%d concurrent=%d ", g_res_kinds, X.populated, X.concurrent);
     nmany_keys = 24;
@@ -817,8 +979,12 @@ static void run_c18(void)
     ABT_OK(ABT_thread_join(revive_t));
     /* a seeded subset of the table per run, every entry over all runs */
     int first = (int)plan_n(NOPS), cnt = plan_range(3, sim_limit("ops", 8));
+    int sel[NOPS], nsel = 0;
+    for (int i = 0; i < NOPS; i++)
+        if (!only_upool || OPS[i].upool)
+            sel[nsel++] = i;
     for (int i = 0; i < cnt; i++) {
-        const op18 *o = &OPS[(first + i * 5) % NOPS];
+        const op18 *o = &OPS[sel[(first + i * 5) % nsel]];
         if (o->primary_ult_only == 2 && !X.populated)
             continue;
         if (o->primary_ult_only == 1 && X.populated)
@@ -838,6 +1004,9 @@ static void run_c18(void)
     }
     follow_up("all");
     ABT_OK(ABT_thread_free(&revive_t));
+    push_teardown();
+    if (X.populated) /* (a unit may still be associated with a user-defined pool) */
+        ABT_OK(ABT_thread_set_associated_pool(X.blocked, X.pool));
     up18_teardown();
     if (X.populated) {
         if (X.concurrent) {
@@ -862,3 +1031,12 @@ static void run_c18(void)
     sim_count("c18.routines_fully_enumerated", (uint64_t)n_ops_enumerated);
 }
 SIM_WORKLOAD("C18", "alloc-faults", run_c18, 10)
+/* C14: create_unit / free_unit pairing and the unit map when an association with a user-defined
+ * pool fails half-way (the map entry cannot be allocated, or create_unit returns ABT_UNIT_NULL) */
+static void run_c14_faults(void)
+{
+    only_upool = 1;
+    run_c18();
+    only_upool = 0;
+}
+SIM_WORKLOAD("C14", "failed-associations", run_c14_faults, 2)
